@@ -63,6 +63,19 @@ MoveRel(s, d) ==
                        ELSE Append(queue, [t |-> "move", s |-> s, r |-> new]), own)
     /\ am' = IF HasEntry("add", s) THEN [am EXCEPT ![s] = am[s] + 1] ELSE am
     /\ UNCHANGED <<txn, wantEnds>>
+\* router->moveShape(shape, newPolygon): an absolute move, which is also how a shape is resized.  Same queue rules as the relative move:
+\* on a queued add the shape's own polygon is replaced at once, a queued move has its polygon replaced, otherwise a move is queued
+MoveAbs(s, r) ==
+    /\ (Live(s) \/ HasEntry("add", s)) /\ ~HasEntry("del", s)
+    /\ want' = [want EXCEPT ![s] = r]
+    /\ IF HasEntry("add", s)
+       THEN /\ queue' = [queue EXCEPT ![EntryIdx("add", s)].r = r]
+            /\ own' = [own EXCEPT ![s] = r]
+            /\ UNCHANGED <<scene, ends, steps>>
+       ELSE Commit(IF HasEntry("move", s) THEN [queue EXCEPT ![EntryIdx("move", s)].r = r]
+                   ELSE Append(queue, [t |-> "move", s |-> s, r |-> r]), own)
+    /\ am' = IF HasEntry("add", s) THEN [am EXCEPT ![s] = am[s] + 1] ELSE am
+    /\ UNCHANGED <<txn, wantEnds>>
 \* router->deleteShape(shape): precondition -- not in the transaction that adds it
 DeleteShape(s) ==
     /\ Live(s) /\ ~HasEntry("add", s) /\ ~HasEntry("del", s)
